@@ -446,9 +446,11 @@ impl Env {
             }
             Op::HandleWrite { slot, name, val } => {
                 // a ContextValue can only be obtained through the public accessors
+                // (under a scratch name: the name written through the handle must reach the engine
+                // through the handle ONLY)
                 let mut tmp = Context::new();
-                tmp.set_variable(name, val.to_engine());
-                let cv = tmp.get(name).unwrap();
+                tmp.set_variable("verif_scratch_value", val.to_engine());
+                let cv = tmp.get("verif_scratch_value").unwrap();
                 let c = self.slot(*slot);
                 let g = c.0.lock();
                 match g {
